@@ -41,6 +41,7 @@ def run(tier):
             hexes[vlib.run_cmd([bins["vh_lib"], "b3", p]).stdout.decode().strip()[:12]] = c
         nh, nr = (60, 40) if tier == "quick" else (6000, 2500)
         hist_jobs = [(vlib.seed() * 100 + i, 6) for i in range(nh)]
+        hist_jobs += [(vlib.seed() * 100 + 90_000 + k, len(sc), sc) for k, sc in enumerate(hs.SCRIPTS)]          # file / directory clashes on the hub
         race_jobs = [(vlib.seed() * 77 + i, "path" if i % 2 == 0 else "host", "stage" if i % 4 < 2 else "flock") for i in range(nr)]
         recs = hs.run_all(copia, shim, SHIMDIR, os.path.join(work, "x"), hexes, hist_jobs, race_jobs,
                           large=(3000, 13000) if tier == "quick" else (3000, 9000, 13000, 40000))
